@@ -51,8 +51,9 @@ def run(world, rep, tier, only=None):
         ok = False
         for c in creators[cr]:
             for sw in switch_cases(pf, c):
-                if not _reads_stat(sw["expr"], "st_mode"):
-                    continue
+                if not (_reads_stat(sw["expr"], "st_mode") or
+                        depends_on(pf, sw["expr"], lambda y: isinstance(y, dict) and y.get("k") == "m" and y.get("f") == "st_mode")):
+                    continue        # (the type may have been put into a local first)
                 labs = [l for l in sw["labels"] if isinstance(l, dict)]
                 if any(l.get("c") == val for l in labs):
                     ok = True
